@@ -2,6 +2,10 @@ import QipVerif.Lemmas.QasmImportFaithful
 import QipVerif.Lemmas.QasmMat2
 import QipVerif.Lemmas.QasmImportTop
 import QipVerif.Lemmas.QasmCustomDen
+import QipVerif.Lemmas.QasmImportW1Den
+import QipVerif.Lemmas.QasmTokPre
+import QipVerif.Lemmas.QasmTokFuel
+import QipVerif.Lemmas.QasmTokImport
 /-!
 # C04 — imported OpenQASM 2.0 programs mean what the standard says
 
@@ -258,6 +262,124 @@ example : DefsOk userDefs ∧ ArgsOk [Expr.div .pi (.lit cs!"3")] :=
   ⟨⟨by decide, by decide, by decide, by decide, rfl, by decide,
     ⟨by decide, by decide, by decide, by decide, rfl, by decide, trivial⟩⟩,
    ⟨by decide, by decide, by decide⟩⟩
+
+/-! ### Whole programs WITH user gate definitions (class W₁) -/
+
+/-- **Refinement for whole programs with user gate definitions (partial: class `W1`, hypothesis `keys`).**
+`W1 p decls gdefs ops`: `p` = header, `include "qelib1.inc"`, the declarations `decls`, the gate definitions
+`gdefs` (accepted by the standard: `DefsOk`, any nesting depth, at most 64), then the operations `ops` —
+`U`, `CX`, calls of `qelib1.inc` gates and of the DEFINED gates (indexed or whole-register arguments),
+`measure`, `barrier`, `if`-conditioned gate statements; no literal zero divisor; `keys`: different calls of
+user gates are rendered to different cache keys `name(args)` (in the code the key is the call's text).
+If the standard accepts `p` (`flatten p = ok (env, fl)`), the importer model returns registers of the
+standard's sizes and, for every flat operation of the standard in order (every broadcast instance): the
+library gate of `shortcut_rows` for a built-in / `qelib1.inc` call, and for a call of a user gate ONE gate
+named `name(args)` on the call's qubits, with the call's condition, whose matrix is that of the temporary
+circuit `inner` = `_custom_gate` on the local qubits (`gatesOf1`); the standard's gate table is then
+`gdefs.reverse ++ qelib1`.  `hk`: as in `import_faithful_partial` (trivial on the repaired tree). -/
+theorem import_faithful_w1_partial (p : Program) (decls : List Stmt) (gdefs : List GateDef) (ops : List Stmt)
+    (hw : W1 p decls gdefs ops) (env : Env) (fl : List FlatOp) (h : flatten p = .ok (env, fl))
+    (hk : ∀ s ∈ ops, ifRangeOk env s) :
+    importProgram p = .ok (env.qregs.total, env.cregs.total,
+      fl.flatMap (gatesOf1 (gdefs.reverse.map storeDef))) ∧ env.gates = gdefs.reverse ++ qelib1.reverse :=
+  import_refines_w1 p decls gdefs ops hw env fl h hk
+
+/-- **Unitary of the imported circuit, segment by segment — programs with user gate definitions (partial:
+class `W1`).**  The standard's meaning `denote p` (every call, user gates included, expanded down to
+`U`/`CX` by the standard's substitution semantics) and the imported operation list are related by
+`SegRel1 N`: in order, gate segments — a run of built-ins under one condition against imported operations
+(library gates and user gates) carrying that condition, with `denPrims N prims` = `denIOps N seg` up to ONE
+phase, where a user gate `name(args)` on targets `t` denotes the unitary of its temporary circuit on the local
+qubits placed on `t` by the central embedding (`denCustom`); never-true conditions against nothing (repaired
+importer); the same measurements; barriers without counterpart. -/
+theorem import_den_w1_partial (p : Program) (decls : List Stmt) (gdefs : List GateDef) (ops : List Stmt)
+    (hw : W1 p decls gdefs ops) (env : Env) (fl : List FlatOp) (h : flatten p = .ok (env, fl))
+    (hk : ∀ s ∈ ops, ifRangeOk env s) :
+    ∃ sops iops, denote p = .ok (env.qregs.total, env.cregs.total, sops) ∧
+      importProgram p = .ok (env.qregs.total, env.cregs.total, iops) ∧
+      SegRel1 env.qregs.total sops iops :=
+  import_den_w1 p decls gdefs ops hw env fl h hk
+
+/-- **One unitary, one global phase — programs with user gate definitions, no condition, no measurement.** -/
+theorem import_unitary_w1_partial (p : Program) (decls : List Stmt) (gdefs : List GateDef) (ops : List Stmt)
+    (hw : W1 p decls gdefs ops) (env : Env) (fl : List FlatOp) (h : flatten p = .ok (env, fl))
+    (hk : ∀ s ∈ ops, ifRangeOk env s) (sops : List Qasm.Op)
+    (hd : denote p = .ok (env.qregs.total, env.cregs.total, sops)) (prims : List Prim)
+    (hu : Export.opsPrims sops = some prims) :
+    ∃ iops A B, importProgram p = .ok (env.qregs.total, env.cregs.total, iops) ∧
+      Export.denOps env.qregs.total sops = some A ∧ denIOps env.qregs.total iops = some B ∧ PhaseEqN A B := by
+  obtain ⟨sops', iops, hd', hi, hrel⟩ := import_den_w1 p decls gdefs ops hw env fl h hk
+  rw [hd] at hd'
+  simp only [Except.ok.injEq, Prod.mk.injEq, true_and] at hd'
+  subst hd'
+  obtain ⟨A, B, h1, h2, h3⟩ := segRel1_unitary _ _ _ hrel prims hu
+  exact ⟨iops, A, B, hi, by simp [Export.denOps, hu, h1], h2, h3⟩
+
+private def w1Defs : List GateDef :=
+  [⟨cs!"inner", [cs!"x", cs!"y"], [cs!"p", cs!"q"],
+      [.U (.id cs!"x") (.mul (.lit cs!"2") (.id cs!"y")) (.lit cs!"0.5") cs!"q", .CX cs!"q" cs!"p",
+       .call cs!"cu1" [.add (.id cs!"x") (.id cs!"y")] [cs!"p", cs!"q"]]⟩,
+   ⟨cs!"outer", [cs!"t"], [cs!"a", cs!"b", cs!"c"],
+      [.call cs!"inner" [.div (.id cs!"t") (.lit cs!"2"), .neg .pi] [cs!"c", cs!"a"],
+       .barrier [cs!"a"], .call cs!"ccx" [] [cs!"b", cs!"c", cs!"a"]]⟩]
+
+private def w1Ops : List Stmt :=
+  [.qop (.call cs!"outer" [.div .pi (.lit cs!"3")] [.idx cs!"q" 2, .idx cs!"q" 0, .idx cs!"r" 1]),
+   .barrier [.whole cs!"q"],
+   .qop (.call cs!"inner" [.lit cs!"0.25", .pi] [.whole cs!"q", .whole cs!"r"]),
+   .qop (.call cs!"h" [] [.whole cs!"r"]),
+   .ifc cs!"c" 1 (.call cs!"outer" [.div .pi (.lit cs!"3")] [.idx cs!"r" 0, .idx cs!"r" 1, .idx cs!"r" 2])]
+
+private def w1Example : Program :=
+  .version :: .incl cs!"qelib1.inc" :: ([.qreg cs!"q" 3, .qreg cs!"r" 3, .creg cs!"c" 1] ++ (w1Defs.map Stmt.gate ++ w1Ops))
+
+/-- the class W₁ is not empty: two definitions (one nested in the other, a barrier in a body, qubits
+permuted), a broadcast call of a user gate, the same user gate called twice (cache hit), a condition —
+and the standard accepts the program -/
+example : W1 w1Example [.qreg cs!"q" 3, .qreg cs!"r" 3, .creg cs!"c" 1] w1Defs w1Ops ∧
+    ∃ env fl, flatten w1Example = .ok (env, fl) := by
+  refine ⟨⟨rfl, by decide, by decide, ?_, by decide, Or.inr (by decide), by decide, ?_⟩, ⟨_, _, rfl⟩⟩
+  · exact ⟨by decide, by decide, by decide, by decide, rfl, by decide,
+      ⟨by decide, by decide, by decide, by decide, rfl, by decide, trivial⟩⟩
+  · rintro n ps n' ps' ⟨s, hs, hc, _⟩ ⟨s', hs', hc', _⟩ heq
+    simp only [w1Ops, List.mem_cons, List.not_mem_nil, or_false] at hs hs'
+    rcases hs with rfl | rfl | rfl | rfl | rfl <;> simp only [callOf, callOfOp, Option.some.injEq, Prod.mk.injEq, reduceCtorEq] at hc <;>
+      obtain ⟨rfl, rfl⟩ := hc <;>
+      rcases hs' with rfl | rfl | rfl | rfl | rfl <;>
+        simp only [callOf, callOfOp, Option.some.injEq, Prod.mk.injEq, reduceCtorEq] at hc' <;>
+        obtain ⟨rfl, rfl⟩ := hc' <;>
+        first
+          | exact ⟨rfl, rfl⟩
+          | exact absurd heq (by decide)
+
+/-! ### The line tokenizer (`read_qasm` up to and including `_tokenize`) -/
+
+/-- **The tokenizer on rendered programs.**  `Tok.tokenize` is the Lean model of `_tokenize` /
+`_tokenize_line` (the padding of brackets, the split at `;`, the three branches of `_tokenize_line` with their
+four regular expressions transcribed as backtracking matchers; tied to the code by an exact correspondence on
+rendered, re-laid-out and malformed texts).  For EVERY program of the class `TokClass` (every statement kind;
+identifiers, numerals and file names are non-empty runs of characters other than blanks and `( ) [ ] { } ; ,`;
+any number of statements, operands and parameters, expressions of any depth; no parameterised gate named `if`),
+tokenizing the program rendered one statement per line yields exactly the token lists `tokensOf` of its
+statements — the lists the later passes (`_gate_processor`, `_regs_processor`, the `qreg` / `measure` / `if`
+handling) consume. -/
+theorem tokenizer_faithful (p : Program) (h : Tok.TokClass p = true) :
+    Tok.tokenize (renderProgram p) = .ok (p.flatMap Tok.tokensOf) :=
+  Tok.tokenize_render p h
+
+/-- … including the pre-processing of `read_qasm` (stripping, comment handling, the header test), for programs
+none of whose rendered lines contains `//` -/
+theorem read_tokens_faithful (p : Program) (h : Tok.TokClass p = true) (hc : Tok.noComment p = true) :
+    Tok.readTokens (renderProgram (.version :: p)) = .ok (p.flatMap Tok.tokensOf) :=
+  Tok.readTokens_render p h hc
+
+/-- the recursion bound of the model of `_tokenize_line` is never reached, and the parameter tokens are those
+the importer model builds its cache keys from -/
+theorem tokenizer_total (cmd : Str) : Tok.tokenizeLine cmd ≠ .error .fuel ∧
+    ∀ e : Expr, Tok.exprOk e = true → Tok.argToken e = Import.argToken e :=
+  ⟨Tok.tokenizeLine_fuel cmd, Tok.argToken_eq_import⟩
+
+example : Tok.TokClass Tok.exProg = true ∧ Tok.noComment Tok.exProg = true := by decide
 
 /-! ### The condition of an `if` statement -/
 
